@@ -266,8 +266,15 @@ fn check(id: &str, tier: Tier) -> i32 {
     if rep.classes.len() < 2 {
         machinery_fail.push(format!("vacuous run: only {} distinct outcome classes", rep.classes.len()));
     }
+    // a family that was never reached because the time budget ran out is a cap (reported as such), not a
+    // defect of the machinery: the coverage self-checks of the property are then notes in the evidence
+    let budget_hit = rep.caps.iter().any(|c| c.contains("time budget"));
     for v in (def.post)(&rep, tier) {
-        machinery_fail.push(format!("vacuity self-check: {}", v));
+        if budget_hit {
+            rep.notes.push(format!("not reached within the time budget: {}", v));
+        } else {
+            machinery_fail.push(format!("vacuity self-check: {}", v));
+        }
     }
     for v in &rep.vacuity {
         machinery_fail.push(format!("vacuity self-check: {}", v));
